@@ -148,6 +148,20 @@ func runBlockRepo(c *Case) ([]Obs, any) {
 				node = node2
 				repo = node.VerifBlocks()
 				return Obs{OK, b2i(fired), 1}
+			case "revert_fault": // t j : Revert(t) during which the j-th storage operation returns an error; if the revert
+				// reports the error it is tried again without a fault (the peer announces the fork again)
+				store.FailAt = store.OpCount() + int(op.Int(1))
+				err := repo.Revert(ctx, int(op.Int(0)))
+				fired := store.Failed
+				store.FailAt = 0
+				store.Failed = false
+				if err != nil {
+					if err2 := repo.Revert(ctx, int(op.Int(0))); err2 != nil {
+						return Obs{ERR, b2i(fired), 2}
+					}
+					return Obs{OK, b2i(fired), 1}
+				}
+				return Obs{OK, b2i(fired), 0}
 			case "reload": // Load on the SAME repository object (what a second Node.Run on one Node does)
 				if err := repo.Load(ctx); err != nil {
 					return Obs{ERR}
@@ -224,7 +238,7 @@ func runBlockRepo(c *Case) ([]Obs, any) {
 		})
 		result = append(result, obs)
 		switch op.Name {
-		case "add", "addn", "revert", "load", "load_fault", "reload", "save_race_revert":
+		case "add", "addn", "revert", "revert_fault", "load", "load_fault", "reload", "save_race_revert":
 			snapshot()
 		}
 	}
